@@ -229,7 +229,7 @@ def scenario(ctx, lines, pend):
 
 def run(ctx):
     lines, pend = [], []
-    for _ in range(ctx.n(30, 700)):
+    for _ in range(ctx.n(30, 450)):
         scenario(ctx, lines, pend)
     if lines:
         outs = ctx.driver(lines)
